@@ -2,7 +2,7 @@
    Only statements here; every proof is `exact <lemma>` into Proofs/. *)
 From Verif Require Import Base.Prelude Base.StrUtil Base.Index Base.NdArr Model.MapSpec Model.MapRun Model.MapDenote
   Model.SymBody Model.RunInfoCodec Model.FSStore Corr.Run_C04 Corr.Valid_C04
-  Proofs.RunInfoFacts Proofs.FSStoreFacts Proofs.ReloadFacts Proofs.ConsistentFacts Proofs.FinishFacts Proofs.C04Corr Proofs.C04Witness.
+  Proofs.RunInfoFacts Proofs.FSStoreFacts Proofs.ReloadFacts Proofs.ConsistentFacts Proofs.FinishFacts Proofs.SequenceFacts Proofs.C04Corr Proofs.C04Witness.
 
 (* ---------------------------------------------------------------------------------------------------------- *)
 (* 1. RunInfo.load (RunInfo.dump ri) = ri : shapes, masks (keyed by a name or a tuple of names), internal shapes
@@ -134,12 +134,55 @@ Example C04_example_finishes :
 Proof. exact mixed_case_finishes. Qed.
 
 (* ---------------------------------------------------------------------------------------------------------- *)
+(* 3''. Folder re-use.  run_sequence: any number of runs into the same folder, each with cleanup=True
+        (_cleanup_run_folder empties the folder, Model/FSStore.cleanup_folder), starting from any folder state w0.
+        After the sequence the folder holds exactly the files of a run of the LAST request into an empty folder
+        (C04_sequence_last); hence, in any interpreter (`live` arbitrary: the same process with the earlier runs' manager
+        processes still alive, or a fresh one), load_outputs and RunInfo.load return the values of the run that last wrote
+        the folder and nothing of an earlier run - the statement does not mention the earlier requests cs at all. *)
+Theorem C04_sequence_last : forall legacy w0 cs c w,
+  w_root w0 = root_name -> run_sequence legacy w0 (cs ++ [c]) = Ok w ->
+  exists f live, finish legacy c = Ok f /\ w = {| w_root := root_name; w_files := w_files (f_world f); w_live := live |}.
+Proof. exact sequence_last. Qed.
+Print Assumptions C04_sequence_last.
+
+Theorem C04_reload_after_sequence : forall w0 cs c w live fn o,
+  w_root w0 = root_name -> run_sequence false w0 (cs ++ [c]) = Ok w -> valid_request c = true ->
+  In fn (c_funcs c) -> In o (fouts fn) -> kind_persists c fn = true ->
+  let w' := {| w_root := w_root w; w_files := w_files w; w_live := live |} in
+  exists f o' returned stored,
+    finish false c = Ok f
+    /\ find (fun x => str_eqb (fst (fst x)) o) (r_out (f_state f)) = Some (o', returned, stored)
+    /\ load_outputs version_name w' o = Ok (Some (PVal stored), w').
+Proof. exact reload_after_sequence. Qed.
+Print Assumptions C04_reload_after_sequence.
+
+Theorem C04_runinfo_after_sequence : forall w0 cs c w live,
+  w_root w0 = root_name -> run_sequence false w0 (cs ++ [c]) = Ok w -> valid_request c = true ->
+  let w' := {| w_root := w_root w; w_files := w_files w; w_live := live |} in
+  exists f, finish false c = Ok f
+    /\ runinfo_load version_name w'
+       = Ok ({| li_info := f_info f; li_inputs := map (fun kv => (fst kv, PVal (snd kv))) (c_inputs c);
+                li_defaults := PEnv (pipeline_defaults (c_funcs c)) |}, w').
+Proof. exact runinfo_after_sequence. Qed.
+Print Assumptions C04_runinfo_after_sequence.
+
+(* sequences of valid requests never fail, so the hypotheses above are satisfiable for every such sequence *)
+Theorem C04_run_sequence_succeeds : forall cs w0,
+  w_root w0 = root_name -> Forall runnable cs -> exists w, run_sequence false w0 cs = Ok w.
+Proof. exact run_sequence_succeeds. Qed.
+Print Assumptions C04_run_sequence_succeeds.
+
+(* ---------------------------------------------------------------------------------------------------------- *)
 (* 3'. The canonical form: for EVERY valid request (with a backend for every mapped output) the model's whole
        observation - run, two reloads in the same or a fresh interpreter, RunInfo.load, inputs, defaults, xarray
-       structure, folder unchanged - satisfies the executable statement spec_ok, i.e. the very predicate that judges the
+       structure and coordinate values, folder unchanged, after any successful earlier runs into the same folder
+       (c_prev) - satisfies the executable statement spec_ok, i.e. the very predicate that judges the
        real implementation's observations in the correspondence check. *)
 Theorem C04_model_meets_spec : forall c,
-  valid_request c = true -> storage_complete c = true -> spec_ok c (run c) = true.
+  valid_request c = true -> storage_complete c = true -> forall w0,
+  run_sequence false empty_world (map case_of_request (c_prev c)) = Ok w0 -> c_cleanup c = true ->
+  spec_ok c (run c) = true.
 Proof. exact model_meets_spec. Qed.
 Print Assumptions C04_model_meets_spec.
 
